@@ -226,6 +226,19 @@ class Reject:
     shard: int | None = None
 
 
+def _group_divergences(diverg, cap: int = 20) -> list:
+    """Reference-clause mismatches grouped by key: how many, and one event (cut short) to look at."""
+    groups: dict[str, dict] = {}
+    for d in diverg:
+        k = json.dumps(d.key, sort_keys=True, default=str)
+        g = groups.get(k)
+        if g is None:
+            ex = json.dumps(d.event, default=str) if d.event is not None else ""
+            groups[k] = g = {"clause": d.clause, "key": d.key, "count": 0, "example": ex[:700]}
+        g["count"] += 1
+    return sorted(groups.values(), key=lambda g: -g["count"])[:cap]
+
+
 class Ctx:
     def __init__(self, pid: str, tier: str, seed: int, level: str = "model_checking"):
         self.pid = pid
@@ -469,6 +482,10 @@ class Ctx:
             # a listed finding is printed on every run (it is a property of the unchanged tree)
             n = known_hit.get(i, 0)
             print(f"KNOWN-FINDING: property={self.pid} {f['what']} (key={json.dumps(f['key'], sort_keys=True)}; hit {n}x this run)")
+        if os.environ.get("VERIF_DUMP_DIVERGE"):       # development aid: every reference-clause mismatch with its event
+            with open(os.environ["VERIF_DUMP_DIVERGE"], "w") as fh:
+                for d in diverg:
+                    fh.write(json.dumps({"clause": d.clause, "key": d.key, "event": d.event}, default=str) + "\n")
         states = sum(r.distinct for r in self.tlc_runs)
         trans = sum(r.generated for r in self.tlc_runs)
         cov: dict[str, Any] = {
@@ -488,7 +505,7 @@ class Ctx:
                 if r.mode != "trace"
             ],
             "trace_shards": sum(1 for r in self.tlc_runs if r.mode == "trace"),
-            "divergences": [{"clause": d.clause, "key": d.key} for d in diverg[:20]],
+            "divergences": _group_divergences(diverg),
             "known_findings_hit": {open_f[i]["what"]: n for i, n in known_hit.items()},
             **self.notes,
         }
